@@ -176,6 +176,16 @@ Inserted(rec) == {i \in 1..Len(rec.cm) : rec.cm[i].ins}
 InsertedClasses(rec) ==
   IF Inserted(rec) = {} THEN {"base"} ELSE {rec.cm[i].cls : i \in Inserted(rec)}
 
+(* One cause of non-idempotence is not tied to a slot: a line comment that does not fit in the rest of
+   the line is re-flowed word by word and the printer ends it with an empty `//` line; every further
+   formatting adds one more (prettier.rs, line_comment; pinned by its comment_tests).  It is
+   recognised by its symptom - F(x) has more empty line comments than x - and recorded under a
+   class of its own. *)
+EmptyLineComments(cs) == Cardinality({i \in 1..Len(cs) : cs[i].k = "line" /\ cs[i].ws = <<>>})
+OverflowClass == "prettier.line-comment|overflow|line"
+NonIdempotenceClasses(rec) ==
+  IF EmptyLineComments(rec.out) > EmptyLineComments(rec.cm) THEN {OverflowClass} ELSE InsertedClasses(rec)
+
 Failures(rec) ==
   LET E == ExpectedWords(rec)
       O == ObservedWords(rec)
@@ -201,7 +211,7 @@ Failures(rec) ==
       whole == IF rec.base_clean
                THEN (IF "crash" \in DOMAIN rec THEN {[kind |-> "crash", cls |-> InsertedClasses(rec)]} ELSE {})
                     \cup (IF rec.errs > 0 THEN {[kind |-> "breaks-syntax", cls |-> InsertedClasses(rec)]} ELSE {})
-                    \cup (IF ~rec.idem THEN {[kind |-> "non-idempotent", cls |-> InsertedClasses(rec)]} ELSE {})
+                    \cup (IF ~rec.idem THEN {[kind |-> "non-idempotent", cls |-> NonIdempotenceClasses(rec)]} ELSE {})
                ELSE {}
   IN  IF "crash" \in DOMAIN rec THEN whole
       ELSE whole
